@@ -128,7 +128,8 @@ def front_ends(path, style, options):
 
 def _sub_worker(job):
     tmp, idx, kinds, layout, style, options = job
-    d = os.path.join(tmp, 'm%d' % idx)
+    # the module's directory: any legal name (blanks, braces, per cent signs, non-ASCII letters)
+    d = os.path.join(tmp, ['m%d', 'dir with blank %d', 'proj{v%d}', '100%%s_%d', 'caf\xe9_%d'][idx % 5] % idx)
     os.makedirs(d, exist_ok=True)
     src, ids = modgen.module_source(kinds, layout)
     path = os.path.join(d, 'xdverif_c15_m%d.py' % idx)
